@@ -14,12 +14,14 @@ pub fn engine_main(name: &str, mut make: impl FnMut() -> Box<dyn Engine>, gen: i
     }
     install_panic_hook();
     if args[1] == "exec" {
+        ctx::start_watchdog(&args[3], name);
         let mut e = make();
         exec_file(e.as_mut(), &args[2], &args[3], name);
         return;
     }
     let thorough = args[1] == "thorough";
     let seed: u64 = args[2].parse().unwrap_or(1);
+    ctx::start_watchdog(&args[3], name);
     let mut c = Ctx::new(&args[3], name, thorough, seed);
     let mut e = make();
     gen(&mut c, e.as_mut());
